@@ -97,6 +97,13 @@ def pick_selection(per, sel):
             p = list(dict.fromkeys(both[sel['i'] % len(both)]))
             return (p[0], p[-1])
         return (flat[sel['i'] % len(flat)],)
+    if k == 'dup' and flat:
+        x = flat[sel['i'] % len(flat)]
+        both = [p for p in per if len(set(p)) >= 2]
+        if both and sel['i'] % 2:
+            p = list(dict.fromkeys(both[sel['i'] % len(both)]))
+            return (p[0], p[-1], p[0])
+        return (x, x)
     if k == 'absent':
         return ('35',)
     if k == 'empty':
@@ -117,7 +124,20 @@ def mk_sel(texts, how):
 def eval_case(case, allranges=False):
     o = Outcome()
     try:
-        v = Interp().build_checked(case['p'])
+        # the queries are also issued between the steps of the history (their answers must never depend on earlier queries)
+        prog = case['p']
+        ip_ = Interp()
+        v = ip_.build({'cls': prog.get('cls'), 'ctor': prog['ctor'], 'ops': []})
+        for op_ in prog.get('ops', []):
+            pre_per = per_char(v)
+            sel0 = pick_selection(pre_per, case['sel'])
+            if sel0:
+                check_find(o, v, v.base_str, pre_per, sel0, mk_sel(sel0, case['how']), None, None, False,
+                           '(between steps) %s.find_settings(%r)' % (describe(v), list(sel0)))
+                v.find_settings(mk_sel(sel0, case['how']), 0, None, True)
+            v = ip_.step(v, op_)
+        per_char(v)
+        str(v)
     except BuilderInvalid:
         o.skipped = 'builder_invalid'
         return o
@@ -165,6 +185,7 @@ def strat(allr=False):
     sel = st.one_of(st.fixed_dictionaries({'k': st.just('present'), 'i': st.integers(0, 20)}),
                     st.fixed_dictionaries({'k': st.just('present'), 'i': st.integers(0, 20)}),
                     st.fixed_dictionaries({'k': st.just('present2'), 'i': st.integers(0, 20)}),
+                    st.fixed_dictionaries({'k': st.just('dup'), 'i': st.integers(0, 20)}),
                     st.just({'k': 'absent'}), st.just({'k': 'empty'}))
     d = {'p': gen.progs(CFG), 'sel': sel, 'how': st.integers(0, 11)}
     if not allr:
